@@ -35,18 +35,20 @@ pub const RSA4096_WS: [(&str, &str); 2] = [
 ];
 
 /// honest openssl-generated keys with public exponents other than 65537 (`-pkeyopt rsa_keygen_pubexp:`):
-/// 3, 0x83, 0x8001 and 0x80000001 -- the last three have the top bit of their leading byte set, so
-/// their DER INTEGER carries a sign octet
-pub const RSA2048_EXP: [(&str, &str); 4] = [
+/// 3, 0x83, 0x8001, 0x80000001 (the top bit of their leading byte set: the DER INTEGER carries a sign octet)
+/// and 0x10000000f (33 bits, the widest the rsa crate takes)
+pub const RSA2048_EXP: [(&str, &str); 5] = [
     (include_str!("../../fixtures/rsa2048_e3.pem"), include_str!("../../fixtures/rsa2048_e3.pub.pem")),
     (include_str!("../../fixtures/rsa2048_e83.pem"), include_str!("../../fixtures/rsa2048_e83.pub.pem")),
     (include_str!("../../fixtures/rsa2048_e8001.pem"), include_str!("../../fixtures/rsa2048_e8001.pub.pem")),
     (include_str!("../../fixtures/rsa2048_e80000001.pem"), include_str!("../../fixtures/rsa2048_e80000001.pub.pem")),
+    (include_str!("../../fixtures/rsa2048_e10000000f.pem"), include_str!("../../fixtures/rsa2048_e10000000f.pub.pem")),
 ];
-pub const RSA4096_EXP: [(&str, &str); 3] = [
+pub const RSA4096_EXP: [(&str, &str); 4] = [
     (include_str!("../../fixtures/rsa4096_e3.pem"), include_str!("../../fixtures/rsa4096_e3.pub.pem")),
     (include_str!("../../fixtures/rsa4096_e11.pem"), include_str!("../../fixtures/rsa4096_e11.pub.pem")),
     (include_str!("../../fixtures/rsa4096_e83.pem"), include_str!("../../fixtures/rsa4096_e83.pub.pem")),
+    (include_str!("../../fixtures/rsa4096_e10000000f.pem"), include_str!("../../fixtures/rsa4096_e10000000f.pub.pem")),
 ];
 
 pub const RSA2048: [(&str, &str); 4] = [
@@ -67,8 +69,8 @@ pub const RSA_WRONG: [(u32, &str, &str); 4] = [
     (3072, include_str!("../../fixtures/rsa3072.pem"), include_str!("../../fixtures/rsa3072.pub.pem")),
 ];
 
-pub const V1_SIGNING_POOL: usize = 15;
-pub const V1_PKE_POOL: usize = 7;
+pub const V1_SIGNING_POOL: usize = 16;
+pub const V1_PKE_POOL: usize = 8;
 
 fn v1_pke_pair(idx: usize) -> (&'static str, &'static str) {
     match idx % V1_PKE_POOL {
